@@ -19,6 +19,10 @@ CASES = {
  "suppress": "import contextlib\ndef f(a, b):\n    with contextlib.suppress(KeyError):\n        return {}['k']\n    return 5\n",
  "partial": "import functools\ndef g(x, y):\n    return x + y\ndef f(a, b):\n    return functools.partial(g, 1)(2)\n",
  "lru_cache helper": "import functools\n@functools.lru_cache(maxsize=None)\ndef g(x):\n    return x * 2\ndef f(a, b):\n    return g(4)\n",
+ "lru_cache key semantics": "import functools\nCALLS = []\n@functools.lru_cache(maxsize=None)\ndef g(x, y=0):\n    CALLS.append(x)\n    return [x]\ndef f(a, b):\n    r1 = g(1); r2 = g(1.0); r3 = g(True); r4 = g(2); r5 = g(1, y=0); r6 = g(1, 0)\n    return (r1 is r2, r2 is r3, r1 is r4, r1 is r5, r5 is r6, len(CALLS))\n",
+ "module-level dict cache": "_CACHE = {}\ndef g(x):\n    if x not in _CACHE:\n        _CACHE[x] = [x]\n    return _CACHE[x]\ndef f(a, b):\n    return g(1) is g(1.0), g(2) is g(3), len(_CACHE)\n",
+ "class-level cache": "class P:\n    _seen = {}\n    def get(self, k):\n        return self._seen.setdefault(k, [k])\ndef f(a, b):\n    return P().get(1) is P().get(True), len(P._seen)\n",
+ "cached_property once": "import functools\nclass P:\n    def __init__(self):\n        self.n = 0\n    @functools.cached_property\n    def v(self):\n        self.n += 1\n        return self.n\ndef f(a, b):\n    p = P()\n    return p.v, p.v, p.n, P().v\n",
  "cache helper": "import functools\n@functools.cache\ndef g(x):\n    return x * 2\ndef f(a, b):\n    return g(4)\n",
  "reduce": "import functools, operator\ndef f(a, b):\n    return functools.reduce(operator.or_, [1, 2, 4], 0)\n",
  "global counter": "N = 0\ndef f(a, b):\n    global N\n    N += 1\n    return N\n",
